@@ -87,6 +87,18 @@ def main():
                 except Exception as exc:  # pylint: disable=broad-except
                     res['valid'] = False
                     res['valid_error'] = f'{type(exc).__name__}: {exc}'[:300]
+            if case.get('validate') and res.get('valid') and 'start' in case:
+                # the same text parsed with another start line number: the SAME model (line numbers only appear in errors), still schema-valid
+                try:
+                    script2 = parse_script(case['text'], case['start'])
+                    if script2 != script:
+                        res['valid'] = False
+                        res['valid_error'] = f'start_line_number={case["start"]} changes the model: top-level members {sorted(script2)}'
+                    else:
+                        validate_script(copy.deepcopy(script2))
+                except Exception as exc:  # pylint: disable=broad-except
+                    res['valid'] = False
+                    res['valid_error'] = f'start_line_number={case["start"]}: {type(exc).__name__}: {exc}'[:300]
             if case.get('lint'):
                 try:
                     res['lint'] = [w for w in lint_script(script) if 'abel' in w]
